@@ -4,7 +4,7 @@
    its class default (command_type).  VerificationTrailer.unpack's `while True:` loop consumes the interpreter's fuel
    exactly like the model's vt_loop: the tie holds for every fuel, OutOfFuel included. *)
 From V Require Import Prelude.Base Prelude.PyInt Prelude.PySlice Prelude.PyStr Prelude.PyAst Prelude.PyWorld gen.F_rpc.
-From V Require Import Model.Pdu Model.Request Model.RpcLoop Model.Bind Model.Verification Model.Epm Flow.World_rpc Proofs.Flow_rpc_lib Proofs.Flow_rpc_pdu Proofs.Flow_rpc_bind.
+From V Require Import Model.Pdu Model.Request Model.RpcLoop Model.Bind Model.Verification Model.Epm Flow.World_rpc Proofs.Flow_rpc_lib Proofs.Flow_rpc_wf.
 From V Require Import Proofs.RpcLib Proofs.RpcVerification.
 
 (* in this file a command's ranges are computed through: the kind is known in every lemma *)
